@@ -20,10 +20,15 @@ PROP_UNITS = {
     "C09": {"units": ["tree"], "search": "treesearch",
             "kinds": lambda k: not k.startswith("sample") and k != "panic-in-sample"},
     "C10": {"units": ["tree"], "search": "treesearch", "kinds": None},
-    "C04": {"units": ["tree", "alias"], "search": None, "kinds": None},
+    "C04": {"units": ["tree", "alias", "hypergeo"], "search": None, "kinds": None},
 }
 
 VERUS_ASSUMPTIONS = {
+    "hypergeo": [
+        "VF mode: every f64 operation (+ - * / comparisons, casts) is total and its RESULT is unspecified (havocked); f64::floor/ln/exp/sqrt/max/is_finite and the two float helper fns (fraction_of_products_of_factorials, ln_of_factorial) are assume_specification / external_body with no postcondition. What is proved is the integer content only; it holds for every value the float computations could take",
+        "requires total_population_size >= 1: for N = 0 the (float-guarded) `n - 1` of the H2PE branch is closed by the native run Hypergeometric::new(0, 0, 0) in the replay crate",
+        "extraction rules R13 (float unary minus routed through `fneg`), R2 (attributes dropped)",
+    ],
     "tree": [
         "ASSUMED contract of rand's Weight::checked_add_assign for integer types (Ok iff no overflow, then exact sum, else unchanged) - discharged separately by the Kani unit weight_checked_add_assign (C09 thorough)",
         "ASSUMED contract of rand's integer random_range(lo..hi): lo <= t < hi; uniformity of that draw is assumed for the probability reading of C10",
